@@ -195,6 +195,180 @@ def job_binary(job):
     return compare(fn, dtype, [x, y], ref, got)
 
 
+MODEL_OPS = ["add", "subtract", "multiply", "remainder", "bitwise_left_shift", "bitwise_right_shift"]
+
+
+def _grid(fn, dtype):
+    v = int_values(dtype)
+    x, y = v[:, None], v[None, :]
+    if fn == "remainder":
+        y = y[:, y[0] != 0]
+    if fn in ("bitwise_left_shift", "bitwise_right_shift"):
+        y = np.arange(0, np.dtype(dtype).itemsize * 8, dtype=dtype)[None, :]
+    return x, y
+
+
+def job_model_tie(job):
+    """Implementation's eager result on the grid, flattened as Python ints."""
+    fn, dtype = job
+    ndx = impl.ndx
+    x, y = _grid(fn, dtype)
+    try:
+        got = getattr(ndx, fn)(ndx.asarray(x), ndx.asarray(y)).to_numpy()
+    except Exception as e:
+        return {"error": f"{type(e).__name__}: {str(e)[:200]}"}
+    xb, yb = np.broadcast_arrays(x, y)
+    if got.shape != xb.shape or str(got.dtype) != dtype:
+        return {"error": f"shape/dtype {got.shape} {got.dtype}"}
+    return {"x": xb.ravel().tolist(), "y": yb.ravel().tolist(), "got": got.ravel().tolist()}
+
+
+def int_model_tie(ctx, swept_bad=frozenset()):
+    """Tie of Model/IntArith.lean (intOpImpl / intOpSpec, theorem intOpImpl_eq_spec) to the code:
+    the implementation must compute what `intOpImpl` computes; where it does not, it must at least
+    equal `intOpSpec` (then only the algorithm model is stale), otherwise that input is the replay."""
+    jobs = [(fn, d) for fn in MODEL_OPS for d in impl.INTS]
+    res = tables.pmap(job_model_tie, jobs, chunk=2)
+    lines, index = [], []
+    for (fn, d), r in tables.pairs(ctx, jobs, res):
+        if isinstance(r, tables.Crashed) or "error" in r:
+            continue  # reported by the value sweep above
+        bits, sg = np.dtype(d).itemsize * 8, ("u" if d.startswith("u") else "s")
+        index.append((fn, d, len(lines), r))
+        lines.extend(f"intop {fn} {bits} {sg} {a} {b}" for a, b in zip(r["x"], r["y"]))
+    outs = common.model(lines)
+    n_pairs = stale = specbad = excl = 0
+    for fn, d, off, r in index:
+        for k, (a, b, g) in enumerate(zip(r["x"], r["y"], r["got"])):
+            mi, ms = outs[off + k].split()
+            n_pairs += 1
+            if mi == "~":
+                raise common.Infra(f"model refuses in-domain input: {lines[off + k]}")
+            if mi != ms:
+                excl += 1  # the theorem's excluded region (negative int64 >> s)
+            if str(g) == mi:
+                continue
+            if str(g) == ms:
+                stale += 1
+                if stale <= 3:
+                    ctx.extra.setdefault("algorithm_model_stale", []).append({"line": lines[off + k], "implementation": g, "model_impl": mi})
+                continue
+            specbad += 1
+            if (fn, d) in swept_bad:
+                continue  # the value sweep against NumPy already reported this (function, dtype) with its region key
+            ctx.violation(f"{fn}/{d}/differs-from-algorithm-model-and-specification",
+                          f"{fn}({a}, {b}) on {d} = {g}; Lean intOpImpl = {mi}, intOpSpec = {ms}",
+                          {"function": fn, "dtype": d, "inputs": [a, b], "got": g, "model_impl": mi, "spec": ms,
+                           "theorem": "Ndx.C02.intOpImpl_eq_spec"})
+    ctx.count("int-model-tie-pairs", n_pairs)
+    ctx.extra["int_model_tie"] = {"pairs": n_pairs, "ops": MODEL_OPS, "dtypes": impl.INTS, "implementation_equals_spec_but_not_algorithm_model": stale,
+                                  "model_impl_differs_from_spec(the theorem's excluded region)": excl}
+    if stale and not specbad:
+        ctx.corr_broken("int-algorithm-model", {"theorem": "Ndx.C02.intOpImpl_eq_spec", "pairs_where_code_departs_from_intOpImpl": stale,
+                                                "note": "the implementation equals intOpSpec on all of them"})
+
+
+G_UNARY = ["abs", "negative", "positive", "sign", "square", "bitwise_invert", "ceil", "floor", "round", "trunc", "logical_not"]
+G_BINARY = ["add", "subtract", "multiply", "remainder", "bitwise_left_shift", "bitwise_right_shift", "bitwise_and",
+            "bitwise_or", "bitwise_xor", "equal", "not_equal", "less", "less_equal", "greater", "greater_equal",
+            "logical_and", "logical_or", "logical_xor"]
+
+
+def job_graph(job):
+    """Translate the exported graph of fn at dtype (symbolic size) and evaluate fn eagerly on the grid."""
+    from .. import graphterm
+    fn, dtype = job
+    ndx = impl.ndx
+    unary = fn in G_UNARY
+    try:
+        a = ndx.array(shape=("N",), dtype=impl.dt(dtype))
+        b = ndx.array(shape=("N",), dtype=impl.dt(dtype))
+        out = getattr(ndx, fn)(a) if unary else getattr(ndx, fn)(a, b)
+        model = ndx.build({"a": a} if unary else {"a": a, "b": b}, {"o": out})
+        term = graphterm.sexpr(model)
+    except Exception as e:
+        return {"unsupported": f"{type(e).__name__}"}
+    if dtype == "bool":
+        v = np.array([False, True])
+        x, y = (v, None) if unary else (v[:, None], v[None, :])
+    elif unary:
+        x, y = int_values(dtype), None
+    else:
+        x, y = _grid(fn, dtype)
+    try:
+        got = (getattr(ndx, fn)(ndx.asarray(x)) if unary else getattr(ndx, fn)(ndx.asarray(x), ndx.asarray(y))).to_numpy()
+    except Exception as e:
+        return {"term": term, "error": f"{type(e).__name__}: {str(e)[:200]}"}
+    if unary:
+        return {"term": term, "x": x.ravel().tolist(), "got": got.ravel().tolist()}
+    xb, yb = np.broadcast_arrays(x, y)
+    if got.shape != xb.shape:
+        return {"term": term, "error": f"shape {got.shape}"}
+    return {"term": term, "x": xb.ravel().tolist(), "y": yb.ravel().tolist(), "got": got.ravel().tolist()}
+
+
+def graph_tie(ctx, swept_bad=frozenset()):
+    """Tie B: the graph the library exports for (fn, dtype) must be one of the terms `Ndx.Graph.gterms`
+    accepts (theorems `*_graph_correct` in Props/C02Graph.lean cover every operand of those terms);
+    and the Lean `eval` of that term must agree with what the implementation (onnxruntime) returns on the
+    grid, which validates the model's reading of the ONNX operators."""
+    jobs = [(fn, d) for fn in G_UNARY + G_BINARY for d in impl.INTS + ["bool"]]
+    res = tables.pmap(job_graph, jobs, chunk=2)
+    accepted = common.model([f"gterm {fn} {d}" for fn, d in jobs])
+    lines, index = [], []
+    stats = {"pairs": len(jobs), "modelled": 0, "matched": 0, "unsupported_by_library": 0, "not_modelled": [], "mismatched": []}
+    for ((fn, d), r), acc in zip(zip(jobs, res), accepted):
+        if isinstance(r, (tables.Crashed, tables.WorkerError)):
+            continue
+        if "unsupported" in r:
+            stats["unsupported_by_library"] += 1
+            if acc != "~":
+                ctx.corr_broken(f"graph-term/{fn}/{d}", {"model": "has terms", "library": r["unsupported"]})
+            continue
+        if acc == "~":
+            stats["not_modelled"].append(f"{fn}/{d}")
+            continue
+        stats["modelled"] += 1
+        terms = acc.split(" || ")
+        ctx.case(("graph", fn, d), True, {"function": fn, "dtype": d, "exported_graph": r["term"]} if stats["modelled"] <= 3 else None)
+        if r["term"] not in terms:
+            stats["mismatched"].append(f"{fn}/{d}")
+            ctx.corr_broken(f"graph-term/{fn}/{d}", {"exported_graph": r["term"], "accepted_terms": terms[:4],
+                                                      "theorem": f"Ndx.Graph.*_graph_correct ({fn})"})
+            continue
+        stats["matched"] += 1
+        if "error" in r:
+            continue
+        k = terms.index(r["term"])
+        index.append((fn, d, len(lines), r))
+        if "y" in r:
+            lines.extend(f"geval {fn} {d} {k} {a} {b}" for a, b in zip(r["x"], r["y"]))
+        else:
+            lines.extend(f"geval {fn} {d} {k} {a}" for a in r["x"])
+    outs = common.model(lines)
+    n = undefined = differ = 0
+    differ_by = {}
+    for fn, d, off, r in index:
+        for j, g in enumerate(r["got"]):
+            m = outs[off + j]
+            n += 1
+            if m == "~":
+                undefined += 1  # outside the operator's modelled domain
+                continue
+            if str(g) != m:
+                differ += 1
+                differ_by[f"{fn}/{d}"] = differ_by.get(f"{fn}/{d}", 0) + 1
+                if (fn, d) in swept_bad:
+                    continue  # same inputs already reported by the NumPy sweep under their region key
+                ctx.violation(f"{fn}/{d}/onnxruntime-differs-from-graph-semantics",
+                              f"{lines[off + j]}: implementation = {g}, Lean eval of the exported graph = {m}",
+                              {"function": fn, "dtype": d, "line": lines[off + j], "got": g, "model": m})
+    stats.update({"graph_evaluations_compared": n, "outside_modelled_operator_domain": undefined, "differ": differ,
+                  "differ_by_function_dtype(all inside recorded findings of the NumPy sweep)": differ_by})
+    ctx.count("graph-tie-evaluations", n)
+    ctx.extra["graph_tie"] = stats
+
+
 def run(ctx: common.Ctx):
     ctx.extra["rule"] = (
         "every element-wise function x every dtype of its standard domain: unary on all values of the 8-bit/bool "
@@ -221,6 +395,7 @@ def run(ctx: common.Ctx):
                     jobs.append(("b", fn, d, True))
     res = tables.pmap(_dispatch, jobs, chunk=8)
     elements = 0
+    swept_bad = set()
     for (kind, fn, d, lazy), r in tables.pairs(ctx, jobs, res):
         mode = "traced" if lazy else "eager"
         ctx.case((fn, d, mode), True, {"function": fn, "dtype": d, "mode": mode, "elements": r.get("n")} if len(ctx.samples) < 6 else None)
@@ -233,11 +408,14 @@ def run(ctx: common.Ctx):
             ctx.violation(f"{fn}/{d}/raises", f"{fn} on {d} ({mode}) raised {r['error']}",
                           {"function": fn, "dtype": d, "mode": mode, "error": r["error"]})
         elif "bad" in r:
+            swept_bad.add((fn, d))
             region = r.get("region", r["bad"])
             ctx.violation(f"{fn}/{d}/{region}",
                           f"{fn} on {d} ({mode}): {r['bad']} differ from NumPy ({r.get('n_bad', '')} of {r.get('n', '')}); e.g. {r.get('examples', r)}"[:600],
                           {"function": fn, "dtype": d, "mode": mode, **r})
     ctx.extra["element_results_compared"] = elements
+    int_model_tie(ctx, frozenset(swept_bad))
+    graph_tie(ctx, frozenset(swept_bad))
     # totality on the domain: shared function x dtype matrix
     js, outs, laws = fntable.dump(ctx)
     table = fntable.evaluate(ctx, js, outs, laws, {"C02"})
